@@ -61,6 +61,7 @@ package libaudit
 //@ ensures[C08] isNil(result1) ==> result0.Header.Type == recvMsg(envlen() - 1).Header.Type && result0.Header.Seq == recvMsg(envlen() - 1).Header.Seq && base(result0.Data) == base(recvMsg(envlen() - 1).Data) && lo(result0.Data) == lo(recvMsg(envlen() - 1).Data) && len(result0.Data) == len(recvMsg(envlen() - 1).Data)
 //@ ensures[C08] isNil(result1) ==> rcvType(envlen() - 1) == result0.Header.Type && rcvSeq(envlen() - 1) == seq && rcvLen(envlen() - 1) == len(result0.Data) && rcvWord0(envlen() - 1) == le32(result0.Data, 0)
 //@ ensures[C08] isNil(result1) ==> (forall i int :: old(envlen()) <= i && i < envlen() - 1 && recvOK(i) ==> recvMsg(i).Header.Seq == 0 && seq != 0)
+//@ ensures[C08] isNil(result1) ==> (forall k int :: lo(result0.Data) <= k && k < hi(result0.Data) ==> at(result0.Data, k) == envrbyte(envlen() - 1, k - lo(result0.Data)))
 //@ ensures[C08] forall i int :: old(envlen()) <= i && i < envlen() - 1 && recvOK(i) ==> rcvSeq(i) == 0 && seq != 0
 //@ ensures[C08] !isNil(result1) ==> !(recvOK(envlen() - 1) && rcvSeq(envlen() - 1) == seq)
 //@ ensures[C08] !isNil(result1) ==> envlen() > old(envlen()) && !(recvOK(envlen() - 1) && recvMsg(envlen() - 1).Header.Seq == seq)
@@ -71,6 +72,7 @@ package libaudit
 //@ loop 0 invariant !receiveMore ==> envlen() > old(envlen()) && recvOK(envlen() - 1) && msg.Header.Type == recvMsg(envlen() - 1).Header.Type && msg.Header.Seq == recvMsg(envlen() - 1).Header.Seq && base(msg.Data) == base(recvMsg(envlen() - 1).Data) && lo(msg.Data) == lo(recvMsg(envlen() - 1).Data) && len(msg.Data) == len(recvMsg(envlen() - 1).Data)
 //@ loop 0 invariant forall i int :: old(envlen()) <= i && i < envlen() - 1 && recvOK(i) ==> rcvSeq(i) == 0 && seq != 0
 //@ loop 0 invariant receiveMore && envlen() > old(envlen()) && recvOK(envlen() - 1) ==> rcvSeq(envlen() - 1) == 0 && seq != 0
+//@ loop 0 invariant !receiveMore ==> (forall k int :: lo(msg.Data) <= k && k < hi(msg.Data) ==> at(msg.Data, k) == envrbyte(envlen() - 1, k - lo(msg.Data)))
 //@ loop 0 invariant !receiveMore ==> rcvType(envlen() - 1) == msg.Header.Type && rcvSeq(envlen() - 1) == msg.Header.Seq && rcvLen(envlen() - 1) == len(msg.Data) && rcvWord0(envlen() - 1) == le32(msg.Data, 0)
 //@ loop 0 invariant forall i int :: old(envlen()) <= i && i < envlen() ==> envkind(i) == kRecv()
 //@ loop 0 invariant forall i int :: 0 <= i && i < old(envlen()) ==> envkind(i) == old(envkind(i)) && (forall a int :: envarg(i, a) == old(envarg(i, a))) && (forall k int :: envbyte(i, k) == old(envbyte(i, k)))
@@ -228,6 +230,8 @@ package libaudit
 //@ loop 0 invariant[C08,C17] forall k int :: lo(rules) <= k && k < hi(rules) ==> !envowned(at(rules, k)) && allocated(at(rules, k)) && base(at(rules, k)) != 0
 //@ loop 0 invariant envlen() > old(envlen()) && sendIs(old(envlen()), 1013, 0) && sendOK(old(envlen()))
 //@ loop 0 invariant seq == sentSeq(old(envlen()))
+// the rule appended last is a copy of the reply received last, as it was when it was received
+//@ loop 0 invariant[C08] len(rules) > 0 ==> len(at(rules, hi(rules) - 1)) == rcvLen(envlen() - 1) && (forall k int :: lo(at(rules, hi(rules) - 1)) <= k && k < hi(at(rules, hi(rules) - 1)) ==> at(at(rules, hi(rules) - 1), k) == envrbyte(envlen() - 1, k - lo(at(rules, hi(rules) - 1))))
 //@ loop 0 invariant[C08] exists a int :: old(envlen()) < a && a < envlen() && ackSnapOK(a, seq) && (forall j int :: old(envlen()) < j && j < a && recvOK(j) ==> rcvSeq(j) == 0 && seq != 0)
 
 // WaitForPendingACKs: the pending list is consumed from the front; an ACK that
